@@ -154,13 +154,26 @@ func c14Exec(sc c14script, cf c14conf, context string, r *lib.Run) c14out {
 			out.returned = true
 		}
 		out.lenient = true
-	case "condition", "or-condition", "action":
+	case "condition", "or-condition", "multi-condition", "action":
 		rule := map[string]interface{}{"when": map[string]interface{}{"pattern": map[string]interface{}{"e": "?e"}}}
 		if sc.Bind != nil {
 			rule["when"] = map[string]interface{}{"pattern": map[string]interface{}{"e": "?x"}}
 		}
 		if context == "condition" {
 			rule["condition"] = map[string]interface{}{"code": sc.Code}
+			rule["action"] = map[string]interface{}{"code": "'done'"}
+		} else if context == "multi-condition" {
+			// the script is evaluated for two candidate bindings (one per fact) and
+			// behaves like sc.Code for one of them only: a failure for ONE candidate is
+			// still a failed node, never a silently dropped candidate
+			for _, c := range []string{"c0", "c1"} {
+				if _, err := loc.AddFact(ctx, c, core.Map{"c": c}); err != nil {
+					panic(err)
+				}
+			}
+			rule["condition"] = map[string]interface{}{"and": []interface{}{
+				map[string]interface{}{"pattern": map[string]interface{}{"c": "?c"}},
+				map[string]interface{}{"code": "if (c == 'c0') { true } else { " + sc.Code + " }"}}}
 			rule["action"] = map[string]interface{}{"code": "'done'"}
 		} else if context == "or-condition" {
 			// the script is one disjunct, next to one that always holds
@@ -187,7 +200,7 @@ func c14Exec(sc c14script, cf c14conf, context string, r *lib.Run) c14out {
 		switch {
 		case node == nil:
 			out.err = fmt.Sprintf("no condition node (cond=%v)", cond)
-		case context == "condition" || context == "or-condition":
+		case context == "condition" || context == "or-condition" || context == "multi-condition":
 			if node.Disposition != core.Complete {
 				out.err = fmt.Sprint(node.Disposition)
 			} else if len(node.Children) > 0 {
@@ -215,6 +228,11 @@ func c14Scenario(sc c14script, cf c14conf, context string, bound int) *lib.Sched
 	limit := cf.limit()
 	return &lib.SchedScenario{
 		Name: name, Bound: bound, MaxSteps: 20000, Horizon: int64(40 * time.Millisecond),
+		// two script runs in a row: the first run's watchdog timer is still pending when
+		// the second starts, and letting it "land early" would move the clock past the
+		// second run's limit before that run's own watchdog goroutine was ever scheduled
+		// (starving a runnable thread across a passage of time) - not offered here
+		NoEarlyTimers: context == "multi-condition",
 		Body: func(r *lib.Run) {
 			out := c14Exec(sc, cf, context, r)
 			r.Data["out"] = out
@@ -253,7 +271,7 @@ func c14Scenario(sc c14script, cf c14conf, context string, bound int) *lib.Sched
 				vs = append(vs, &lib.Violation{Signature: "C14/" + context + "/" + sig, Summary: fmt.Sprintf("%s: %s (value=%q err=%q elapsed=%v limit=%v early-timer-landings=%d)", name, msg, out.value, out.err, out.elapsed, limit, early)})
 			}
 			wantValue := sc.Value
-			if (context == "condition" || context == "or-condition") && sc.Value != "" {
+			if (context == "condition" || context == "or-condition" || context == "multi-condition") && sc.Value != "" {
 				wantValue = "kept"
 			}
 			switch {
@@ -315,7 +333,7 @@ func c14Scenarios(tier string) []*lib.SchedScenario {
 			}
 		}
 	}
-	for _, context := range []string{"run", "condition", "or-condition", "action"} {
+	for _, context := range []string{"run", "condition", "or-condition", "multi-condition", "action"} {
 		for _, sc := range c14Scripts {
 			if context == "condition" && sc.Name == "binding" {
 				// a condition keeps a binding iff the value is non-null: same path as "value"
